@@ -430,3 +430,24 @@ func VerifH_C10_Discovery() {
 }
 
 var _ = time.Second
+
+// VerifH_C10_HeaderTags: the entity tag crosses GET and PUT answers as a
+// header: for every tag of one or two arbitrary bytes (the real strconv
+// quoting and unquoting code runs on them) GetCalendarObject and PutCalendarObject
+// hand back exactly the backend's tag.
+func VerifH_C10_HeaderTags() {
+	internal.VerifResetWire()
+	internal.VerifCopyHook = verifCopy
+	verifResetCodec()
+	tag := vrt.StrN("etag", 1+vrt.Choose("etag-len", vrt.Param("etaglen", 2)))
+	be := &verifBackend{principal: "/dav/u/", homeSet: "/dav/u/cal/"}
+	obj := CalendarObject{Path: "/dav/u/cal/c/o.x", ETag: tag, Data: verifValidCalendar()}
+	be.objects = []CalendarObject{obj}
+	c, _ := newLoopClient(be)
+	got, err := c.GetCalendarObject(context.Background(), obj.Path)
+	vrt.Assert(err == nil && got != nil && got.ETag == tag, "GetCalendarObject hands back the backend's entity tag")
+	be.putResult = &CalendarObject{Path: obj.Path, ETag: tag}
+	res, err := c.PutCalendarObject(context.Background(), obj.Path, verifValidCalendar())
+	vrt.Assert(err == nil && res != nil && res.ETag == tag, "PutCalendarObject hands back the backend's entity tag")
+	vrt.Reach("header-tags")
+}
